@@ -1035,6 +1035,286 @@ def dupjob_phase(tier, seed):
     return out
 
 
+# --------------------------------------------------------------------------
+# histories: the same job (new task objects of the same names) run two or
+# three times in one process on real /bin/sh children, the environment carried
+# over the documented way (merge_done_tasks), entries lost and the output tree
+# wiped in between.  What is judged is C19 for the commands of EACH run: the
+# entry of a task executed in run r speaks of the commands run in run r.
+
+def gen_rerun(rng):
+    ntask = rng.choice((2, 3, 3, 4))
+    names = list(NAMES_OK[:8])
+    rng.shuffle(names)
+    tasks = []
+    for i in range(ntask):
+        hard = [j for j in range(i) if rng.random() < 0.45]
+        soft = [j for j in range(i) if j not in hard and rng.random() < 0.25]
+        tasks.append({'name': names[i], 'hard': hard, 'soft': soft,
+                      'ncmd': rng.choice((1, 2, 3))})
+    nrun = rng.choice((2, 2, 3))
+    runs = []
+    for r in range(nrun):
+        p_fail = rng.choice((0.0, 0.2, 0.5)) if r else \
+            rng.choice((0.0, 0.0, 0.2))
+        exits = [[rng.choice((1, 2, 7)) if rng.random() < p_fail else 0
+                  for _ in range(t['ncmd'])] for t in tasks]
+        runs.append({'exits': exits,
+                     'lose': [i for i in range(ntask)
+                              if r and rng.random() < 0.4],
+                     'wipe': bool(r) and rng.random() < 0.35})
+    return {'kind': 'rerun', 'tasks': tasks, 'runs': runs,
+            'workers': rng.choice((1, 2, 3)), 'tick': 1e-4}
+
+
+def _rerun_texts(r, i, k):
+    return 'R%dT%dC%d out\n' % (r, i, k), 'R%dT%dC%d err\n' % (r, i, k)
+
+
+def run_rerun(scn, chooser):
+    mods = load.load_sim()
+    run_mod = mods['run']
+    top = tempfile.mkdtemp(prefix='c19h-', dir=driver.scratch_root())
+    root, log_root = os.path.join(top, 'out'), os.path.join(top, 'log')
+    ledger = os.path.join(top, 'ledger')
+    sim = core.Sim(chooser, tick=scn['tick'], max_steps=400000,
+                   keep_trace=False, wall_limit=REAL_WALL_LIMIT * 2)
+    res = Result()
+    res.violations = []
+    snaps = []
+
+    def cli(r, i, k):
+        out, err = _rerun_texts(r, i, k)
+        code = scn['runs'][r]['exits'][i][k]
+        return ['/bin/sh', '-c',
+                'echo %d %d %d >> %s; echo %s; echo %s >&2; exit %d'
+                % (r, i, k, shlex.quote(ledger), shlex.quote(out.strip()),
+                   shlex.quote(err.strip()), code)]
+
+    def main():
+        prev = None
+        for r, rdef in enumerate(scn['runs']):
+            objs = []
+            for i, tsk in enumerate(scn['tasks']):
+                objs.append(run_mod.RunTask.from_clis(
+                    tsk['name'], [cli(r, i, k) for k in range(tsk['ncmd'])],
+                    deps=[objs[j] for j in tsk['hard']],
+                    soft_deps=[objs[j] for j in tsk['soft']]))
+            dg = mods['depgraph'].DepGraph
+            hard, softg = dg(), dg()
+            for obj in objs:
+                hard.add_node(obj)
+                softg.add_node(obj)
+            for obj, tsk in zip(objs, scn['tasks']):
+                for j in tsk['hard']:
+                    hard.add_dependency(obj, on=objs[j])
+                for j in tsk['soft']:
+                    softg.add_dependency(obj, on=objs[j])
+            env = mods['env'].Env()
+            if prev is not None:
+                env.merge_done_tasks(prev)
+                for i in rdef['lose']:
+                    env.pop(scn['tasks'][i]['name'], None)
+            if rdef['wipe']:
+                shutil.rmtree(root, ignore_errors=True)
+                shutil.rmtree(log_root, ignore_errors=True)
+            carried = {name: copy.deepcopy(dict(ent))
+                       for name, ent in dict(env).items()
+                       if isinstance(ent, dict)}
+            config = mods['config'].Config({'path': {'output-root': root,
+                                                     'log-root': log_root}})
+            schd = mods['scheduler'].Scheduler(
+                hard_graph=hard, soft_graph=softg,
+                backend=mods['queue'].QueueScheduling(
+                    n_workers=scn['workers']))
+            env = schd.schedule(env=env, config=config)
+            entries, files = {}, {}
+            for i, tsk in enumerate(scn['tasks']):
+                ent = dict(env).get(tsk['name'])
+                if isinstance(ent, dict):
+                    entries[i] = {key: (sched.status_name(val)
+                                        if key == 'status' else val)
+                                  for key, val in ent.items()
+                                  if key in ('status', 'return_codes',
+                                             'stdout', 'stderr')}
+                got = {}
+                for fname in ('stdout', 'stderr'):
+                    fpath = os.path.join(root, tsk['name'], fname)
+                    if os.path.isfile(fpath):
+                        with open(fpath, 'rb') as fil:
+                            got[fname] = fil.read().decode(
+                                'utf-8', 'surrogateescape')
+                files[i] = got
+            snaps.append({'entries': entries, 'files': files,
+                          'carried': carried})
+            prev = env
+
+    try:
+        res.outcome = sim.run(main)
+        res.sim = sim
+        res.main_exc = sim.main_exc
+        res.snaps = snaps
+        res.ledger = []
+        if os.path.isfile(ledger):
+            with open(ledger) as fil:
+                res.ledger = [tuple(int(x) for x in line.split())
+                              for line in fil if line.strip()]
+    finally:
+        shutil.rmtree(top, ignore_errors=True)
+    return res
+
+
+def oracle_rerun(scn, res):
+    out = []
+
+    def bad(sig, **detail):
+        out.append(('rerun-history', sig, detail))
+
+    if res.main_exc is not None or res.outcome[0] != 'ok':
+        bad('rerun:schedule-did-not-return-normally',
+            outcome=repr(res.outcome)[:200], exc=repr(res.main_exc)[:200])
+        return out
+    last_codes = {}     # task -> exits of its commands, last time it ran
+    for r, snap in enumerate(res.snaps):
+        ran = {}
+        for rr, i, k in res.ledger:
+            if rr == r:
+                ran.setdefault(i, []).append(k)
+        for i, tsk in enumerate(scn['tasks']):
+            exits = scn['runs'][r]['exits'][i]
+            ent = snap['entries'].get(i)
+            status = ent.get('status') if ent else None
+            if i in ran:
+                ks = ran[i]
+                want_ks = []
+                for k, code in enumerate(exits):
+                    want_ks.append(k)
+                    if code:
+                        break
+                if ks != want_ks:
+                    bad('rerun:commands-run-are-not-the-prefix-up-to-the-'
+                        'first-failure', run=r, task=i, ran=ks, want=want_ks)
+                    continue
+                codes = [exits[k] for k in ks]
+                last_codes[i] = codes
+                want_status = 'DONE' if not any(codes) and \
+                    len(codes) == len(exits) else 'FAILED'
+                if status != want_status:
+                    bad('rerun:status-of-a-task-executed-in-this-run:%s-for-%s'
+                        % (status, want_status), run=r, task=i, codes=codes)
+                if not ent or ent.get('return_codes') != codes:
+                    bad('rerun:return-codes-are-not-those-of-the-commands-'
+                        'run-in-this-run', run=r, task=i, want=codes,
+                        got=repr(ent and ent.get('return_codes'))[:80],
+                        status=status)
+                for fname, col in (('stdout', 0), ('stderr', 1)):
+                    parts = [(cli_k, _rerun_texts(r, i, k)[col])
+                             for k, cli_k in ((k, None) for k in ks)]
+                    text = snap['files'][i].get(fname)
+                    want = ''.join(body for _c, body in parts)
+                    if text is None:
+                        bad('rerun:no-%s-file-after-the-run' % fname, run=r,
+                            task=i)
+                        continue
+                    # lines echoing the command lines are not specified
+                    kept = ''.join(ln for ln in text.splitlines(True)
+                                   if not ln.startswith('$ '))
+                    if kept != want:
+                        bad('rerun:%s-is-not-what-the-commands-of-this-run-'
+                            'wrote' % fname, run=r, task=i, got=kept[:120],
+                            want=want[:120])
+                    for key in (fname,):
+                        path = ent and ent.get(key)
+                        if path and not os.path.basename(
+                                os.path.dirname(str(path))) == tsk['name']:
+                            bad('rerun:capture-path-outside-the-task-'
+                                'directory', run=r, task=i, path=str(path))
+            elif status == 'DONE':
+                # not executed in this run: carried over from an earlier one
+                codes = last_codes.get(i)
+                if codes is None or any(codes) or \
+                        len(codes) != len(exits):
+                    bad('rerun:DONE-without-a-fully-successful-execution',
+                        run=r, task=i, last=codes)
+                elif ent.get('return_codes') != codes:
+                    bad('rerun:carried-return-codes-changed', run=r, task=i,
+                        want=codes, got=repr(ent.get('return_codes'))[:80])
+            elif status == 'FAILED':
+                bad('rerun:FAILED-without-running-a-command', run=r, task=i)
+    return out
+
+
+def rerun_phase(tier, seed):
+    rng = random.Random(driver.mix(seed, 0xE19))
+    out = {'evaluations': 0, 'violations': {}, 'distinct': 0,
+           'coverage': {}}
+    digests = set()
+    facts = {'runs': 0, 'wipes': 0, 'entries_lost': 0, 're_executions': 0,
+             'failed_after_DONE': 0, 'commands': 0}
+    for n in range(120 if tier == 'quick' else 3000):
+        scn = gen_rerun(rng)
+        chooser = sched.draw_chooser(rng, scn)
+        res = run_rerun(scn, chooser)
+        if res.sim.unsupported:
+            raise driver.HarnessError('HARNESS-UNSUPPORTED: %s'
+                                      % res.sim.unsupported)
+        out['evaluations'] += 1
+        digests.add(res.sim.digest())
+        facts['runs'] += len(scn['runs'])
+        facts['wipes'] += sum(1 for rd in scn['runs'] if rd['wipe'])
+        facts['entries_lost'] += sum(len(rd['lose']) for rd in scn['runs'])
+        facts['commands'] += len(res.ledger)
+        seen_done = set()
+        for r, snap in enumerate(getattr(res, 'snaps', ())):
+            ran = {i for rr, i, _k in res.ledger if rr == r}
+            for i in ran:
+                if r and any(rr < r and ii == i for rr, ii, _k in res.ledger):
+                    facts['re_executions'] += 1
+                if i in seen_done and \
+                        snap['entries'].get(i, {}).get('status') == 'FAILED':
+                    facts['failed_after_DONE'] += 1
+            for i, ent in snap['entries'].items():
+                if ent.get('status') == 'DONE':
+                    seen_done.add(i)
+        for cls, sig, detail in oracle_rerun(scn, res):
+            lst = out['violations'].setdefault(sig, [])
+            if len(lst) < 2:
+                lst.append({'class': cls, 'signature': sig, 'detail': detail,
+                            'scenario': scn,
+                            'preempts': list(res.sim.preempts),
+                            'digest': res.sim.digest(), 'seed': seed,
+                            'run_no': -1 - n, 'policy': 'rerun-history'})
+    out['distinct'] = len(digests)
+    out['coverage'] = {'histories_of_runs_on_real_children': facts}
+    return out
+
+
+def shrink_rerun(scn):
+    """Simpler histories: fewer runs, no wipe, nothing lost, one worker."""
+    if len(scn['runs']) > 2:
+        for r in range(1, len(scn['runs'])):
+            new = copy.deepcopy(scn)
+            del new['runs'][r]
+            yield new
+    for r, rdef in enumerate(scn['runs']):
+        if rdef['wipe']:
+            new = copy.deepcopy(scn)
+            new['runs'][r]['wipe'] = False
+            yield new
+        for i in rdef['lose']:
+            new = copy.deepcopy(scn)
+            new['runs'][r]['lose'].remove(i)
+            yield new
+        for i, exits in enumerate(rdef['exits']):
+            for k, code in enumerate(exits):
+                if code:
+                    new = copy.deepcopy(scn)
+                    new['runs'][r]['exits'][i][k] = 0
+                    yield new
+    if scn['workers'] > 1:
+        yield dict(copy.deepcopy(scn), workers=1)
+
+
 class Spec(simcheck.SimSpec):
     prop = 'C19'
     level = 'exploration'
@@ -1085,23 +1365,38 @@ class Spec(simcheck.SimSpec):
     def run(self, scn, chooser):
         if scn.get('kind') == 'dupjob':
             return run_dupjob(scn)
+        if scn.get('kind') == 'rerun':
+            return run_rerun(scn, chooser)
         return run_scenario(scn, chooser)
 
     def oracle(self, scn, res):
         if scn.get('kind') == 'dupjob':
             return res.violations
+        if scn.get('kind') == 'rerun':
+            return oracle_rerun(scn, res)
         return oracle(scn, res)
 
     def candidates(self, scn):
         if scn.get('kind') == 'dupjob':
             return ()
+        if scn.get('kind') == 'rerun':
+            return shrink_rerun(scn)
         return shrink(scn)
 
     def extra(self, tier, seed):
-        return dupjob_phase(tier, seed)
+        out = dupjob_phase(tier, seed)
+        more = rerun_phase(tier, seed)
+        out['evaluations'] += more['evaluations']
+        out['distinct'] += more['distinct']
+        out['coverage'].update(more['coverage'])
+        for sig, lst in more['violations'].items():
+            out['violations'].setdefault(sig, []).extend(lst)
+        return out
 
     def facts(self, scn, res):
         facts = {}
+        if scn.get('kind') in ('dupjob', 'rerun'):
+            return facts
         own, final = expected(scn, res.proc_log)
         for i, tsk in enumerate(scn['tasks']):
             facts['task-final:' + final[i]] = \
